@@ -183,9 +183,11 @@ pub fn run(kind: &str, ctx: &Ctx, out: &mut dyn Write) {
                     }
                     _ => {
                         // uniformity: pooled draws over seeds for one (model, A) with <= 256 models
+                        // (at most about 2500 such tests per run: 40 000 draws each)
+                        let stride = srcs.len() / 2500 + 1;
                         let a = lists[rng.below(lists.len() as u64) as usize].clone();
                         let c = count_under(&inp, &a).unwrap_or(0);
-                        if c >= 2 && c <= 256 {
+                        if c >= 2 && c <= 256 && k % stride == 0 {
                             let draws_per_call = 500;
                             let calls = 80; // 40 000 draws
                             let mut tally: std::collections::BTreeMap<Vec<i32>, usize> = Default::default();
